@@ -6,6 +6,7 @@ open Emboss.Tok
 #print axioms C10_lossless
 #print axioms C10_lossless_line
 #print axioms C10_longest_match
+#print axioms C10_splitlines_lossless
 #print axioms C10_line_numbers
 #print axioms C10_newlines
 #print axioms C10_indent_balanced
